@@ -1132,7 +1132,13 @@ class Engine:
                 # ufunc / reduction writing into a caller-supplied buffer: a store for the frame ledger; the value is not modelled
                 self.on_store(kw["out"])
                 raise Unsupported("out= argument (recorded as a store into the buffer)")
-            return f(*pos, **kw)
+            try:
+                return f(*pos, **kw)
+            except TypeError as ex:
+                # a library model called with a signature it does not cover (extra positional / keyword arguments): not modelled
+                if getattr(f, "__module__", "").startswith("pyvc") and ("positional argument" in str(ex) or "unexpected keyword" in str(ex)):
+                    raise Unsupported("library model %s: %s" % (getattr(f, "__name__", f), ex))
+                raise
         raise Unsupported("call of %r" % (f,))
 
     # ------------------------------------------------------------------ statements
